@@ -155,10 +155,10 @@ static void obs_reset(hx_obs *o) {
     o->ncalls = 0; o->tx_overflow = 0; o->ncb = o->nlog = 0;
     for (int i = 0; i < o->ntx; i++) {
         hx_txrec *r = &o->tx[i];
-        hx_buf k = r->kinds, b0 = r->body[0], b1 = r->body[1], dz = r->dumpz, fl = r->files;
+        hx_buf k = r->kinds, b0 = r->body[0], b1 = r->body[1], dz = r->dumpz, fl = r->files, r0 = r->raw[0], r1 = r->raw[1];
         memset(r, 0, sizeof *r);
-        k.n = b0.n = b1.n = dz.n = fl.n = 0;
-        r->kinds = k; r->body[0] = b0; r->body[1] = b1; r->dumpz = dz; r->files = fl;
+        k.n = b0.n = b1.n = dz.n = fl.n = r0.n = r1.n = 0;
+        r->kinds = k; r->body[0] = b0; r->body[1] = b1; r->dumpz = dz; r->files = fl; r->raw[0] = r0; r->raw[1] = r1;
     }
     o->ntx = 0;
     hb_reset(&o->dump); hb_reset(&o->canon); hb_reset(&o->cbtrace);
